@@ -1174,6 +1174,11 @@ pub(crate) fn calculate_func_call_order(
                     let name = &func_arg_info.arg_indices[i as u32];
                     seen_named_args.insert(name.clone());
                     missing_arg_names.remove(name);
+                } else {
+                    ctx.errors.push(Error::GenericWithNode {
+                        msg: "Too many arguments".to_string(),
+                        node: arg.val.node(),
+                    });
                 }
             }
         }
@@ -1210,7 +1215,11 @@ fn calculate_named_arg_order(
     let mut reordered_args: Vec<Option<Rc<Expr>>> = vec![None; func_arg_info.nargs];
     for (i, arg) in args.iter().enumerate() {
         let index = if let Some(name) = &arg.name {
-            func_arg_info.arg_indices.get_id(&name.v) as usize
+            // an unknown argument name has already been reported
+            let Some(id) = func_arg_info.arg_indices.try_get_id(&name.v) else {
+                continue;
+            };
+            id as usize
         } else {
             i
         };
